@@ -9,6 +9,8 @@
      ParameterData(p)                -> Get p          / RGet v
      Artifact(name)                  -> Artifact f     / RArt vs   (f = the parameters the producer's text lists,
                                                                     vs = the values the text shows, in order)
+     Artifact(name), panicking nodes -> ArtifactP f bad / RArt vs or RPanic (the call panicked and the client
+                                                                    recovered, as the edit server does)
    a panic / unparsable output is RFail (never a sequential response). *)
 From PF Require Export Graph.Lock Check.Common.
 From Coq Require Import List NArith Arith Bool.
@@ -20,6 +22,9 @@ Definition U (p : nat) (v : N) : op := Update p v.
 Definition B (p : nat) : op := BadUpdate p.
 Definition G (p : nat) : op := Get p.
 Definition A (f : list nat) : op := Artifact f.
+(* a producer with panicking nodes: [bad] = the (parameter, value) pairs for which its evaluation panics *)
+Definition PB (p : nat) (v : N) : param * value := (p, v).
+Definition AP (f : list nat) (bad : list (param * value)) : op := ArtifactP f bad.
 (* one unlocked ModelVersion() read by a client: (invocation stamp, response stamp, value) *)
 Definition V (i j : nat) (v : N) : nat * nat * N := (i, j, v).
 (* a retained response: (what it decoded to at response time, what the SAME retained object -- the artifact value,
